@@ -17,7 +17,7 @@ CLAIMS = {
 
 CLAIMS.update({
     "C11": {
-        "text": "For the six TLV readers of der.py (found by role) and the two primitive readers: abstract interpretation on an arbitrary buffer shows that only UnexpectedDER escapes and that at every normal return the declared length lies within the buffer, the remainder is exactly buffer[1+llen+length:] and the value is built from exactly the declared body; the DER minimality rules (short/long length form, no leading zero length byte, long form only for >= 0x80, non-empty non-negative minimally-encoded INTEGER, BIT STRING unused bits 0..7 / expected value / all `unused` low bits of the last octet zero (exact mask 2**unused - 1) / non-empty when unused != 0, padded OID sub-identifier) are entailment queries on role-defined byte terms at the return states; writer and reader tag bytes are cross-checked; encoders have no normal return outside their domain. Decides 'accept only canonical, never beyond the buffer, exact remainder'; does not decide value round-trips (hex / base-128 arithmetic).",
+        "text": "For the six TLV readers of der.py (found by role) and the two primitive readers: abstract interpretation on an arbitrary buffer shows that only UnexpectedDER escapes and that at every normal return the declared length lies within the buffer, the remainder is exactly buffer[1+llen+length:] and the value is built from exactly the declared body; the DER minimality rules (short/long length form, no leading zero length byte, long form only for >= 0x80, non-empty non-negative minimally-encoded INTEGER, BIT STRING unused bits 0..7 / expected value / all `unused` low bits of the last octet zero (exact mask 2**unused - 1) / non-empty when unused != 0, padded OID sub-identifier) are entailment queries on role-defined byte terms at the return states; writer and reader tag bytes are cross-checked; encoders have no normal return outside their domain. Decides 'accept only canonical, never beyond the buffer, exact remainder'; does not decide value round-trips (hex / base-128 arithmetic). A possibly non-zero unused-bits count must have been separated (unused >= 1) and its padding tested before remove_bitstring returns, for every form of expect_unused.",
         "note": "A1-A7; the integer value of a byte string is an uninterpreted term int_of(hex(x)); remove_object's arc arithmetic and encode_number/read_number value agreement are not decided.",
         "technique": "abstract interpretation with entailment queries at return states (decision facts on role-defined terms) + sibling tag table",
         "design": "DESIGN.md section 3 C11",
@@ -38,7 +38,7 @@ CLAIMS.update({
 
 CLAIMS.update({
     "C02": {
-        "text": "Guards and totality of verification: in Public_key.verifies every return other than the constant False is reached only with 1 <= r, s <= n-1 (interval entailment at the return states, n = generator.order()), no exception can escape verifies (a possibly-identity result is tested before its coordinate is taken), True is only the outcome of comparing r with x(<double-scalar result>) mod n; verify / verify_digest return only the constant True and let only BadSignatureError (BadDigestError with truncation off) escape for any signature bytes with each of the three library decoders (12 contexts); the three decoders themselves are strict (exact lengths / item sizes, no trailing bytes, r and s read from the right places - the decoder clause shared with C12). Decides the range/identity/error-mapping/never-a-false-value/strict-decoding clauses; does not decide that mul_add computes (e/s)G + (r/s)Q.",
+        "text": "Guards and totality of verification: in Public_key.verifies every return other than the constant False is reached only with 1 <= r, s <= n-1 (interval entailment at the return states, n = generator.order()), no exception can escape verifies (a possibly-identity result is tested before its coordinate is taken), True is only the outcome of comparing r with x(<double-scalar result>) mod n; verify / verify_digest return only the constant True and let only BadSignatureError (BadDigestError with truncation off) escape for any signature bytes with each of the three library decoders (12 contexts); the three decoders themselves are strict (exact lengths / item sizes, no trailing bytes, r and s read from the right places - the decoder clause shared with C12). Decides the range/identity/error-mapping/never-a-false-value/strict-decoding clauses; does not decide that mul_add computes (e/s)G + (r/s)Q. Shared with C06 (R06.8): identity operands are recognised by the internal addition used by the double-scalar product.",
         "note": "A1-A7; point arithmetic is summarised (its result may be the identity unless compared with INFINITY); hash functions are contract parameters; digests are assumed non-empty as the property states.",
         "technique": "abstract interpretation: interval entailment at return states, identity/None typestate, exception-escape analysis",
         "design": "DESIGN.md section 3 C02",
@@ -80,7 +80,7 @@ CLAIMS.update({
 
 CLAIMS.update({
     "C06": {
-        "text": "Representation discipline of the group-law code, decided by an abstract interpretation that classifies every coordinate-valued expression of PointJacobi relative to p (reduced / signed difference / small multiple / wide) and by role (X, Y, Z, operand, sign): every zero / ==1 / == test on a coordinate value is exact modulo p; every point constructed or stored inside the class receives reduced components and formula results are tested for Z == 0 before construction (inductive representation invariant); x(), y(), to_affine() and the legacy Point arithmetic hand out canonical residues; a zero test of a Y-role value leads to an identity outcome only in the doubling functions (11 other sites are the recorded known finding F6); _add calls each formula helper only under the Z facts it assumes; inverse_mod is applied to the invariant-protected Z after the Z == 1 shortcut; __eq__/__ne__ pairing and NotImplemented for foreign types. Does not decide that the formulas compute chord-and-tangent sums.",
+        "text": "Representation discipline of the group-law code, decided by an abstract interpretation that classifies every coordinate-valued expression of PointJacobi relative to p (reduced / signed difference / small multiple / wide) and by role (X, Y, Z, operand, sign): every zero / ==1 / == test on a coordinate value is exact modulo p; every point constructed or stored inside the class receives reduced components and formula results are tested for Z == 0 before construction (inductive representation invariant); x(), y(), to_affine() and the legacy Point arithmetic hand out canonical residues; a zero test of a Y-role value leads to an identity outcome only in the doubling functions (11 other sites are the recorded known finding F6); _add calls each formula helper only under the Z facts it assumes; inverse_mod is applied to the invariant-protected Z after the Z == 1 shortcut; __eq__/__ne__ pairing and NotImplemented for foreign types. Does not decide that the formulas compute chord-and-tangent sums. R06.8: the internal addition returns the other operand for an operand with Z == 0 and the internal doubling maps it to (0, 0, 1); R06.9: legacy Point.__add__ decides the equal-x case by (y1 + y2) % p == 0 (accepted pattern set).",
         "note": "A1-A7; assume-guarantee on the invariant (stored coordinates are reduced): points built from external integers are the induction boundary (C08 typestate / user constructions); p - v for reduced v is classified reduced under the side condition v != 0.",
         "technique": "abstract interpretation over a residue-class/role domain (syntax-directed, fixpoint over the class), guard-dominance and dispatch-fact checks",
         "design": "DESIGN.md section 3 C06",
@@ -107,7 +107,7 @@ CLAIMS.update({
         "design": "DESIGN.md section 3 C19",
     },
     "C20": {
-        "text": "Lock discipline of the reader-writer lock, with locks identified by construction site (every lock is created per instance, none at class level): both light-switch methods take their mutex first and release it last with no early exit or raising statement in between, touch the counter only while the mutex is held and perform the group-lock operation after the counter update (== 1 after increment -> acquire, == 0 after decrement -> release); the reader/writer acquire methods hand out exactly the locks that the matching release methods release through the same switch and lock objects, every plain lock taken on the way in is released before returning, writer release drops the exclusive lock before leaving the writers group; the held->acquired lock-order graph over the five locks (7 edges, including the release phases) is acyclic; readers pass through queue and no_readers, writers never touch the queue. These are the premises that proofs of mutual exclusion and deadlock freedom assume; exclusion and liveness over all schedules are a state-space question and are not decided here.",
+        "text": "Lock discipline of the reader-writer lock, with locks identified by construction site (every lock is created per instance, none at class level): both light-switch methods take their mutex first and release it last with no early exit or raising statement in between, touch the counter only while the mutex is held and perform the group-lock operation after the counter update (== 1 after increment -> acquire, == 0 after decrement -> release); the reader/writer acquire methods hand out exactly the locks that the matching release methods release through the same switch and lock objects, every plain lock taken on the way in is released before returning, writer release drops the exclusive lock before leaving the writers group; the held->acquired lock-order graph over the five locks (7 edges, including the release phases) is acyclic; readers pass through queue and no_readers, writers never touch the queue. These are the premises that proofs of mutual exclusion and deadlock freedom assume; exclusion and liveness over all schedules are a state-space question and are not decided here. R20.6: every lock handed to a light switch (acquired by the first, released by the last member of a group) is created as an owner-less threading.Lock().",
         "note": "A4; a group lock held by a switch counts as held; the pair (group lock of a switch -> that switch's mutex) is excluded from the order graph with the reason stated in the evidence.",
         "technique": "typestate / lock-set analysis: pairing on all paths, guarded-by, lock-order graph",
         "design": "DESIGN.md section 3 C20",
@@ -116,13 +116,13 @@ CLAIMS.update({
 
 CLAIMS.update({
     "C01": {
-        "text": "Structural agreement between the signing and the verifying side, which is what makes a disagreement show only for some curve x hash x default combination: sign_digest, verify_digest and recovery obtain their integer from the one shared converter called with (normalised digest, the key's own curve, the caller's allow_truncate) and no second conversion of a digest exists; allow_truncate defaults agree pairwise (True for the data API, False for the digest API) and default encoder/decoder belong to one format on every entry point; entropy, k, sigencode, sigdecode, hashfunc and allow_truncate are forwarded unchanged along sign -> sign_digest -> sign_number and verify -> verify_digest, both sides fall back to the key's default hash; the order handed to the encoder (privkey.order) and to the decoder (pubkey.order) are both set from curve.order by from_secret_exponent / from_public_point, which also receive the same curve and hash function; sign_digest_deterministic hands the untouched digest, the RFC 6979 nonce and the caller's allow_truncate to sign_digest; every key loader ends in those two constructors. Does not decide that verifies(sign(...)) holds arithmetically.",
+        "text": "Structural agreement between the signing and the verifying side, which is what makes a disagreement show only for some curve x hash x default combination: sign_digest, verify_digest and recovery obtain their integer from the one shared converter called with (normalised digest, the key's own curve, the caller's allow_truncate) and no second conversion of a digest exists; allow_truncate defaults agree pairwise (True for the data API, False for the digest API) and default encoder/decoder belong to one format on every entry point; entropy, k, sigencode, sigdecode, hashfunc and allow_truncate are forwarded unchanged along sign -> sign_digest -> sign_number and verify -> verify_digest, both sides fall back to the key's default hash; the order handed to the encoder (privkey.order) and to the decoder (pubkey.order) are both set from curve.order by from_secret_exponent / from_public_point, which also receive the same curve and hash function; sign_digest_deterministic hands the untouched digest, the RFC 6979 nonce and the caller's allow_truncate to sign_digest; every key loader ends in those two constructors. Does not decide that verifies(sign(...)) holds arithmetically. Call-graph forwarding rule R01.5: every loader / constructor of the two key classes that takes hashfunc passes its own hashfunc to each loader / constructor it delegates to, and the two final constructors store it as default_hashfunc.",
         "note": "A1-A7; relies on C12 for the codec pairing itself and on C03/C02 for the guards.",
         "technique": "abstract interpretation: call-argument provenance (forwarding dataflow), default-value table, constructor field provenance",
         "design": "DESIGN.md section 3 C01",
     },
     "C09": {
-        "text": "Writer/reader agreement of the key serialisations: the TLV tree each writer emits (SPKI, ECPrivateKey, PKCS#8; from the writer's expression tree) and the TLV tree its reader consumes (reconstructed from the buffers flowing between DER reader calls along every accepting path of the abstract interpretation) agree, the reader's children being a prefix of the writer's, with matching constants (version, context tag, algorithm OID); the curve registry is consistent (17+ Curve objects = members of `curves` = package exports, OIDs and names pairwise distinct, each curve paired with the generator constructed on it); every public point encoding written has exactly the length and prefix byte the from_string dispatcher expects, the private raw encoding is number_to_string(secret, privkey.order), the privateKey OCTET STRING written by to_der has exactly orderlen(privkey.order) bytes, from_der left-pads short scalars and refuses a point body only when it has exactly the raw length; PEM labels written are those searched for; to_der refuses the raw encoding and to_string accepts exactly the four readable encodings; the remainders SigningKey.from_der drops are exactly the three documented ones. Does not decide byte-exactness against an independent encoder nor value round trips.",
+        "text": "Writer/reader agreement of the key serialisations: the TLV tree each writer emits (SPKI, ECPrivateKey, PKCS#8; from the writer's expression tree) and the TLV tree its reader consumes (reconstructed from the buffers flowing between DER reader calls along every accepting path of the abstract interpretation) agree, the reader's children being a prefix of the writer's, with matching constants (version, context tag, algorithm OID); the curve registry is consistent (17+ Curve objects = members of `curves` = package exports, OIDs and names pairwise distinct, each curve paired with the generator constructed on it); every public point encoding written has exactly the length and prefix byte the from_string dispatcher expects, the private raw encoding is number_to_string(secret, privkey.order), the privateKey OCTET STRING written by to_der has exactly orderlen(privkey.order) bytes, from_der left-pads short scalars and refuses a point body only when it has exactly the raw length; PEM labels written are those searched for; to_der refuses the raw encoding and to_string accepts exactly the four readable encodings; the remainders SigningKey.from_der drops are exactly the three documented ones. Does not decide byte-exactness against an independent encoder nor value round trips. The PKCS#8 outer version the writer emits is admitted by the facts of at least one accepting PKCS#8 return state of the reader.",
         "note": "A1-A7; the DER primitives themselves are C11.",
         "technique": "DER-shape comparison (writer expression tree vs reader call/buffer flow from abstract interpretation), table checks, length entailment",
         "design": "DESIGN.md section 3 C09",
